@@ -516,7 +516,7 @@ def mirror_validate(pairs, wd, name="pairs"):
     with open(os.path.join(wd, name + ".ndjson"), "w") as f:
         for p in pairs:
             f.write(json.dumps(p) + "\n")
-    res = vlib.run_tlc("Mirror", "Mirror.cfg", wd, env={"PAIRS": name + ".ndjson"}, timeout=1200)
+    res = vlib.run_tlc("Mirror", "Mirror.cfg", wd, env={"PAIRS": name + ".ndjson"}, timeout=3000)
     verdict = {}
     for t in vlib.tlc_tuples(res["text"], "ACCEPT"):
         verdict[vlib.parse_tla_value(t)[1]] = "ok"
@@ -538,7 +538,7 @@ def c04(tier, seed):
     wd = vlib.workdir("C04")
     V = vlib.Verdicts("C04")
     vlib.build_harness()
-    ndocs = 60 if tier == "quick" else 1500
+    ndocs = 60 if tier == "quick" else 500
     jobs = []
     meta = []
     incdir = os.path.join(wd, "inc")
@@ -682,7 +682,7 @@ def c05(tier, seed):
             else:
                 prim_ok += 1
     # ---- (1) structure: parse -> dump  vs  parse -> write -> read -> dump
-    ndocs = 60 if tier == "quick" else 1500
+    ndocs = 60 if tier == "quick" else 600
     djobs = []
     dmeta = []
     for di in range(ndocs):
